@@ -125,12 +125,22 @@ func (r *Rng) DerivedPath(m map[string]interface{}, allowIdx bool, maxLen int) s
 	var cur interface{} = m
 	n := 1 + r.Intn(maxLen)
 	for i := 0; i < n; i++ {
-		// a list stands for its members
-		if l, ok := cur.([]interface{}); ok {
+		// a list stands for its members (a list directly inside a list is looked through as well:
+		// the resulting path names keys the walkers must NOT reach by plain key steps)
+		empty := false
+		for {
+			l, ok := cur.([]interface{})
+			if !ok {
+				break
+			}
 			if len(l) == 0 {
+				empty = true
 				break
 			}
 			cur = l[r.Intn(len(l))]
+		}
+		if empty {
+			break
 		}
 		mm, ok := cur.(map[string]interface{})
 		if !ok {
